@@ -836,6 +836,135 @@ def run_segmented(R: Run):
             oracle_segmented(R, shp2, r, out, kind + "|float")
 
 
+def oracle_many_cheap(R: Run, shp, r: float, out, kind: str):
+    """max-edge / retention / structure oracle in numpy (binary64, slack 1e-9 relative) for geometries with hundreds of
+    vertices, where the exact-Fraction oracle of every vertex would dominate the run"""
+    import numpy as np
+
+    case = {"fn": "segmented", "kind": kind, "wkt": shp.wkt if len(shp.wkt) < 4000 else shp.wkt[:4000], "resolution": r}
+    g = out.geom
+    ok = skel_of(g) == skel_of(shp)
+    R.oracle(ok, "segmented-changes-type-or-structure", case, f"segmented({r}) changed the structure", sig=f"skel|{kind}")
+    if not ok:
+        return
+    for a, b in zip(rings_of(shp), rings_of(g)):
+        if len(a) < 2:
+            continue
+        bb = np.asarray(b, dtype="float64")
+        worst = float(np.hypot(np.diff(bb[:, 0]), np.diff(bb[:, 1])).max())
+        R.oracle(worst <= r * (1 + 1e-9) + 8 * float(np.abs(bb).max()) * 2.0 ** -52, "densify-edge-longer-than-resolution",
+                 {**case, "ring_vertices": len(a)},
+                 f"segmented[{kind}]: a ring of {len(a)} vertices keeps an edge of length {worst:.9g} > resolution {r}", sig=f"gap|{kind}")
+        j, sub = 0, True
+        tb = [tuple(p) for p in b]
+        for p in a:
+            p = tuple(p)
+            while j < len(tb) and tb[j] != p:
+                j += 1
+            if j == len(tb):
+                sub = False
+                break
+            j += 1
+        R.oracle(sub and tb[0] == tuple(a[0]) and tb[-1] == tuple(a[-1]), "densify-drops-or-reorders-vertices", case,
+                 f"segmented[{kind}]: input vertices are not a subsequence of the output", sig=f"retain|{kind}", trivial=True)
+
+
+MANY_QUICK = (32, 63, 64, 65, 127, 129, 257, 1000)
+MANY_THOROUGH = (32, 33, 63, 64, 65, 66, 127, 128, 129, 255, 256, 257, 511, 513, 1000, 1025, 4097)
+
+
+def many_vertex_path(n: int, long_at: str, s: float = 0.25, L: float = 8.0):
+    """an open staircase of n vertices (axis-parallel steps of length s) in which exactly ONE edge has length L, at the
+    first / second / middle / last-but-one / last position (or none: every edge short)"""
+    k = {"first": 0, "second": 1, "middle": (n - 1) // 2, "last-but-one": n - 3, "last": n - 2, "none": -1}[long_at]
+    pts = [(100.0, -50.0)]
+    for i in range(n - 1):
+        d = L if i == k else s
+        x, y = pts[-1]
+        pts.append((x + d, y) if i % 2 == 0 else (x, y + d))
+    return pts
+
+
+def many_vertex_ring(n: int, long_at: str, s: float = 0.25):
+    """a closed ring of about n vertices: three sides sampled every s, the fourth side (length 8) is ONE edge; the start of
+    the vertex list is rotated so that this edge is the first / a middle / the last-but-one / the closing edge"""
+    m = int(8.0 / s)
+    w = max(1, (n - m - 2) // 2)
+    base = [(i * s, 0.0) for i in range(w + 1)] + [(w * s, j * s) for j in range(1, m + 1)] + [(i * s, 8.0) for i in range(w - 1, -1, -1)]
+    # base is open: its closing edge (0, 8) -> (0, 0) is the long one
+    rot = {"closing": 0, "first": len(base) - 1, "middle": len(base) // 2, "last-but-one": 2}[long_at]
+    ring = base[rot:] + base[:rot]
+    return ring + [ring[0]]
+
+
+def run_many_vertices(R: Run):
+    """the LENGTH axis of densify / segmented / to_crs(resolution): coordinate lists of 32 … 1000 (thorough 4097) vertices
+    around powers of two in which exactly one edge is longer than the resolution, at every position (first, middle, last,
+    the closing edge of a ring) — lines, rings, polygons with holes; exact stream (compared with the model) and the
+    max-edge / retention / count oracles on the real output, plus a rotated float copy and real pyproj"""
+    import pyproj
+    from shapely import affinity
+    from shapely import geometry as sg
+
+    gm, crsmod = _mods()
+    rng = R.rng
+    r = 1.0
+    lengths = MANY_QUICK if R.quick else MANY_THOROUGH
+    src, dst = crsmod.CRS("EPSG:3857"), crsmod.CRS("EPSG:4326")
+    ra, rb = pyproj.CRS.from_epsg(3857), pyproj.CRS.from_epsg(4326)
+    fresh = _fresh_tr(ra, rb, True)
+    for n in lengths:
+        for pos in ("first", "second", "middle", "last-but-one", "last", "none"):
+            if R.quick and pos in ("second", "last-but-one") and rng.random() < 0.5:
+                continue
+            coords = many_vertex_path(n, pos)
+            big = n > 130
+            if big and pos in ("second", "last-but-one"):
+                continue
+            if not big:
+                densify_case(R, gm, coords, r, f"many|n={n}|{pos}")
+            shapes = {"line": sg.LineString(coords)}
+            if pos in ("first", "middle", "last-but-one", "last") and n >= 40:
+                rpos = {"last": "closing"}.get(pos, pos)
+                ring = many_vertex_ring(n, rpos)
+                hole = [(x / 4 + 1.0, y / 4 + 1.0) for x, y in many_vertex_ring(max(40, n // 2), rpos, s=0.5)][::-1]
+                shapes["ring"] = sg.LinearRing(ring)
+                shapes["polygon+hole"] = sg.Polygon(ring, [hole]) if (len(ring) - 36) * 0.25 / 2 > 4.5 else sg.Polygon(ring)
+                shapes["collection"] = sg.GeometryCollection([sg.LineString(coords), sg.Polygon(ring)])
+            for kind, shp in shapes.items():
+                # hole edges are 1/4 of a ring with s = 0.5: short edges 0.125, long edge 2 -> r/len dyadic as well
+                line = f"c07 seg {frac_s(r)} {enc_geom(shp)}"
+                box: Dict[str, Any] = {}
+
+                def f():
+                    try:
+                        out = seg_real(gm, shp, r)
+                    except BaseException as e:  # pylint: disable=broad-except
+                        return err_s(e)
+                    box["out"] = out
+                    return enc_geom(out.geom)
+
+                R.corr(line, f, sig=f"many|seg|{kind}|n={n}|{pos}")
+                if "out" in box:
+                    (oracle_many_cheap if big else oracle_segmented)(R, shp, r, box["out"], f"{kind}|many|{pos}")
+                # arbitrary rotation / scale: float stream, oracle only
+                ang, sc = rng.uniform(0, 360), 10.0 ** rng.uniform(-1, 2)
+                shp2 = affinity.scale(affinity.rotate(shp, ang, origin=(0, 0)), sc, sc, origin=(0, 0))
+                r2 = r * sc * rng.choice([1.0, 0.7, 1.9])
+                try:
+                    out2 = seg_real(gm, shp2, r2)
+                except BaseException as e:  # pylint: disable=broad-except
+                    R.oracle(False, "segmented-raises", {"kind": kind, "wkt": shp2.wkt[:200], "resolution": r2}, repr(e))
+                    continue
+                (oracle_many_cheap if (big or n > 40) else oracle_segmented)(R, shp2, r2, out2, f"{kind}|many-float|{pos}")
+            # through to_crs(resolution) with real pyproj (metres near the origin of EPSG:3857)
+            if pos in ("first", "last", "none") or not R.quick:
+                shp = affinity.scale(sg.LineString(coords), 1000.0, 1000.0, origin=(0, 0))
+                case = {"fn": "to_crs", "kind": f"line|many|n={n}|{pos}", "wkt": shp.wkt, "src": "3857", "dst": "4326", "resolution": 1000.0,
+                        "opts": {}}
+                judge_to_crs(R, gm, gm.Geometry(shp, src), dst, rb, fresh, False, {"resolution": 1000.0}, case, f"many|to_crs|n={n}|{pos}")
+
+
 def run_to_crs_model(R: Run):
     """to_crs control flow against the model, with an exact stand-in projection as the transformer"""
     from .c01 import Pool
@@ -1734,7 +1863,7 @@ def run(R: Run):
     from .c07_options import run_options
 
     timing = {}
-    for fn in (run_densify, run_segmented, run_to_crs_model, run_growth, run_options, run_float_stream, run_to_crs_pyproj,
+    for fn in (run_densify, run_segmented, run_many_vertices, run_to_crs_model, run_growth, run_options, run_float_stream, run_to_crs_pyproj,
                run_extreme_ratio, run_numeric_spellings):
         t0 = time.time()
         fn(R)
